@@ -42,6 +42,8 @@ class Res:
         return f"exit{self.exit}"
 
     def lines(self):
+        if not self.out:
+            return []
         return self.out.split("\n")[:-1] if self.out.endswith("\n") else self.out.split("\n")
 
     def brief(self):
